@@ -172,6 +172,29 @@ func VerdictIndex(sig *types.Signature) int {
 	return -1
 }
 
+// VerdictIndexes lists every result position that can carry a verdict: the error-like result and each bool.
+func VerdictIndexes(sig *types.Signature) []int {
+	var out []int
+	res := sig.Results()
+	if i := VerdictIndex(sig); i >= 0 {
+		out = append(out, i)
+	}
+	for i := 0; i < res.Len(); i++ {
+		if b, ok := res.At(i).Type().Underlying().(*types.Basic); ok && b.Kind() == types.Bool {
+			dup := false
+			for _, o := range out {
+				if o == i {
+					dup = true
+				}
+			}
+			if !dup {
+				out = append(out, i)
+			}
+		}
+	}
+	return out
+}
+
 // PassEdges finds the If instructions that test result value v of a call and
 // returns the edges taken when the call "passed": for error-like results the
 // nil arm, for bool results the arm where v == passVal.
@@ -438,6 +461,90 @@ func DependsOnCut(v ssa.Value, pred func(ssa.Value) bool, cut func(ssa.Value) bo
 		return false
 	}
 	return walk(v)
+}
+
+// DependsOnPrecise is DependsOn except that the result of a small repository helper (at most 12 blocks) depends
+// only on what the helper's returned value in that result position is computed from, its parameters standing for
+// the call's arguments; the other arguments of the call do not count.
+func DependsOnPrecise(v ssa.Value, pred func(ssa.Value) bool) bool {
+	seen := map[ssa.Value]bool{}
+	var walk func(x ssa.Value, depth int) bool
+	small := func(cl *ssa.Call) *ssa.Function {
+		h := cl.Call.StaticCallee()
+		if h != nil && h.Pkg != nil && len(h.Blocks) > 0 && len(h.Blocks) <= 12 && strings.HasPrefix(h.Pkg.Pkg.Path(), "github.com/elastos/Elastos.ELA") && h != cl.Parent() {
+			return h
+		}
+		return nil
+	}
+	walk = func(x ssa.Value, depth int) bool {
+		if x == nil || seen[x] {
+			return false
+		}
+		seen[x] = true
+		idx := 0
+		var cl *ssa.Call
+		if e, ok := x.(*ssa.Extract); ok {
+			if c2, ok := e.Tuple.(*ssa.Call); ok {
+				cl, idx = c2, e.Index
+			}
+		} else if c2, ok := x.(*ssa.Call); ok {
+			cl = c2
+		}
+		if cl != nil && depth < 2 {
+			if h := small(cl); h != nil {
+				if pred(x) {
+					return true
+				}
+				found := false
+				WithParamSubst(cl, func() {
+					for _, b := range h.Blocks {
+						if ret, ok := b.Instrs[len(b.Instrs)-1].(*ssa.Return); ok && idx < len(ret.Results) {
+							if walk(ret.Results[idx], depth+1) {
+								found = true
+								return
+							}
+						}
+					}
+				})
+				return found
+			}
+		}
+		if p, ok := x.(*ssa.Parameter); ok {
+			if a, ok := ParamSubst[p]; ok {
+				return walk(a, depth)
+			}
+		}
+		if pred(x) {
+			return true
+		}
+		in, ok := x.(ssa.Instruction)
+		if !ok {
+			return false
+		}
+		for _, op := range in.Operands(nil) {
+			if *op != nil && walk(*op, depth) {
+				return true
+			}
+		}
+		if a, ok := x.(*ssa.Alloc); ok {
+			for _, st := range StoresInto(a) {
+				if walk(st.Val, depth) {
+					return true
+				}
+			}
+		}
+		if u, ok := x.(*ssa.UnOp); ok && u.Op == token.MUL {
+			if root, ok := AddrRoot(u.X).(*ssa.Alloc); ok {
+				for _, st := range StoresInto(root) {
+					if walk(st.Val, depth) {
+						return true
+					}
+				}
+			}
+		}
+		return false
+	}
+	return walk(v, 0)
 }
 
 // Slice returns the backward slice as a set.
